@@ -26,6 +26,9 @@ PROGRAM_SIZE = 12
 def _init_worker():
     core.use_repo_on_path()
     warnings.simplefilter("ignore")
+    from harness import lib_valueprop as L
+
+    L.single_threaded_ort()
 
 
 def _prog_task(task):
